@@ -280,7 +280,7 @@ class GetNodeId(DeclContract):
         n = T(a.node, it.st)
         _ht, has_name = id_spec(it, n)
         return [ExcCase('object-without-name-and-module', 'AttributeError',
-                        when=z3.And(z3.Not(has_name), z3.Not(HAS_ATTR(n, S('__module__')))))]
+                        when=z3.And(z3.Not(has_name), z3.Not(HAS_ATTR(n, S('__module__'))), z3.Not(ISCLASS(n))))]   # every class has __module__
 
     def result_term(self, it, pre, a):
         return NODE_ID(T(a.node, it.st))
@@ -776,7 +776,7 @@ def visited_has(it, env_var, cls):
 class Traverse(DeclContract):
     name = 'AnnotationDAGBuilder._traverse_breadth_first_to_dag'
     returns = 'none'
-    props = ('C15', 'C16', 'C09')
+    props = ('C15', 'C16', 'C09', 'C10', 'C11')
     doc = ('every class taken from the work list is validated, mapped and has its marks read; every mark adds exactly the '
            'nodes / edges / attributes it declares and schedules the classes it refers to')
     options = {'max_paths': 6000}
@@ -1029,6 +1029,9 @@ class Traverse(DeclContract):
                 out.append(('...for-this-candidate|C15', z3.And(T(maps[0].a.node, st) == node, T(an[0].n, st) == nid, T(ae[0].u, st) == nid,
                                                                   truthy_term(T(an[0].attrs.get('is_oneof_child'), st)))))
                 out.append(('candidate-scheduled|C15,C16', visited_has(it, ctx.var('visited'), node)))
+                # C10: the run-time views drop every node still marked as an untried candidate; the input node must stay in
+                # every view (it is the source of all of them), so it cannot carry the mark
+                out.append(('the-input-node-is-never-marked-as-an-untried-candidate|C10', node != T(ctx.a.input_node, st)))
             return out
 
         c = LoopSpec(text='enumerate(node_id_list)', heap_havoc=outer._havoc_locs, inv=outer._base_inv, body_post=cand_body,
